@@ -250,6 +250,9 @@ l1_type!(v5, (u64, Box<String>));
 l1_type!(v6, (u64, Result<String, String>));
 l1_type!(v7, (u64, (String, Vec<u8>)));
 l1_type!(v8, (u64, u8, String));
+l1_type!(v9, Result<(u64, String), (u64, String)>);
+l1_type!(v10, Result<(u64, Vec<u8>), (u64, String)>);
+l1_type!(v11, Result<UserVal, UserVal>);
 
 pub fn vtype_name(v: u8) -> &'static str {
     match v {
@@ -275,7 +278,10 @@ pub fn exec(case: &Case1, log: Option<&mut Vec<String>>) -> Exec1 {
         5 => v5::exec(case, log),
         6 => v6::exec(case, log),
         7 => v7::exec(case, log),
-        _ => v8::exec(case, log),
+        8 => v8::exec(case, log),
+        9 => v9::exec(case, log),
+        10 => v10::exec(case, log),
+        _ => v11::exec(case, log),
     }
 }
 
@@ -561,6 +567,9 @@ pub fn dyn_drv(vtype: u8, fl: Flavour) -> Box<dyn Dyn1> {
         5 => dyn_arm!(v5, fl),
         6 => dyn_arm!(v6, fl),
         7 => dyn_arm!(v7, fl),
-        _ => dyn_arm!(v8, fl),
+        8 => dyn_arm!(v8, fl),
+        9 => dyn_arm!(v9, fl),
+        10 => dyn_arm!(v10, fl),
+        _ => dyn_arm!(v11, fl),
     }
 }
